@@ -3,7 +3,7 @@
    rules) or raises the tag of a known fact within the finite set of expiry values. *)
 Require Import List NArith Bool Lia PeanoNat.
 Import ListNotations.
-Require Import KV.CrossWindow.Model KV.CrossWindow.Spec KV.CrossWindow.BasicProofs KV.CrossWindow.JoinProofs KV.CrossWindow.RoundProofs.
+Require Import KV.CrossWindow.Model KV.CrossWindow.Spec KV.CrossWindow.BasicProofs KV.CrossWindow.JoinProofs KV.CrossWindow.RoundProofs KV.CrossWindow.StepProofs.
 Open Scope N_scope.
 
 (* ---- the finite universe ------------------------------------------------------------------------------ *)
@@ -340,15 +340,8 @@ End LoopT.
 (* ---- the incremental evaluation ------------------------------------------------------------------------------- *)
 Lemma seed_tags_in : forall l f, In (get_tag (seed_tags l) f) (INF :: map snd l).
 Proof.
-  intros l f. unfold seed_tags.
-  assert (forall (S : list N) l tg, In (get_tag tg f) S -> (forall x, In x l -> In (snd x) S) ->
-          In (get_tag (fold_left (fun tg (x : triple * N) => if snd x <? INF then set_tag (fst x) (snd x) tg else tg) l tg) f) S) as H.
-  { intros S. induction l0 as [|x l0 IH]; intros tg Hin Hall; cbn [fold_left]; [exact Hin|].
-    apply IH; [|intros y Hy; apply Hall; right; exact Hy].
-    destruct (snd x <? INF); [|exact Hin].
-    destruct (triple_dec (fst x) f) as [<- | Hne]; [rewrite get_set_same; apply Hall; left; reflexivity|].
-    rewrite get_set_other by exact Hne. exact Hin. }
-  apply H; [left; reflexivity | intros x Hx; right; apply in_map; exact Hx].
+  intros l f. rewrite seed_tags_get. destruct (old_max l f) as [m|] eqn:E; [|left; reflexivity].
+  right. destruct (old_max_Some _ _ _ E) as [Hin _]. apply in_map_iff. exists (f, m). auto.
 Qed.
 
 (* constants and expiry levels of an incremental evaluation, and the resulting fuel bound *)
